@@ -1,7 +1,8 @@
 (* Object-level refinement for the result-class generator: the classes generated for a selection set
    accept (C01), cover (C01 preservation) every conformant response object, and are as strict as the
    schema up to pydantic's lax leaf table and extra=ignore (C05).
-   Sub-language: sels_ok (Proofs/ResultsRunP.v). *)
+   Sub-language: sels_ok (Proofs/ResultsRunP.v): fields, inline fragments and unpacked spreads that
+   resolve and collect flatten alike (flatten), scalar / enum leaves, OBJECT-typed composite fields. *)
 From Coq Require Import List String Ascii Bool Arith Lia ZArith.
 From AC Require Import Base.Strs Base.Sexp Base.Json Gql.Schema Gql.Exec Py.Ann Py.Pydantic
      Model.Names Model.Results Proofs.ResultsP Proofs.ResultsRunP.
@@ -34,14 +35,14 @@ Proof.
   rewrite H by (left; reflexivity). f_equal. apply IH. intros y Hy. apply H. right; exact Hy.
 Qed.
 
-Lemma conf_obj_fields_only eo rec S frs tn fc sels kv :
-  fields_only sels = true -> NoDup (map field_key (fnodes_of sels)) ->
-  conf_obj_gen eo rec S tn (collect_scopes (Datatypes.S fc) S frs tn [(false, sels)]) kv
-  = (eo || forallb (fun p => mem (fst p) (map field_key (fnodes_of sels))) kv)
-    && forallb (key_spec rec S tn kv) (fnodes_of sels).
+Lemma conf_obj_flat eo rec S tn fns kv :
+  NoDup (map field_key fns) ->
+  conf_obj_gen eo rec S tn (Some (map (node_of_fnode false) fns)) kv
+  = (eo || forallb (fun p => mem (fst p) (map field_key fns)) kv)
+    && forallb (key_spec rec S tn kv) fns.
 Proof.
-  intros Hfo Hnd. rewrite collect_scopes_fields_only by exact Hfo. unfold conf_obj_gen.
-  set (fns := fnodes_of sels) in *. set (nodes := map (node_of_fnode false) fns).
+  intros Hnd. unfold conf_obj_gen.
+  set (nodes := map (node_of_fnode false) fns).
   assert (Hk : map n_key nodes = map field_key fns) by (unfold nodes; rewrite map_map; reflexivity).
   rewrite keys_in_order_nodup; [| rewrite Hk; exact Hnd | intros n _ []].
   rewrite Hk. f_equal. rewrite forallb_map. apply forallb_ext_in. intros f Hf.
@@ -70,7 +71,7 @@ Section Level.
   Hypothesis W_str : forall s, W AStr (JStr s) = true.
   Hypothesis W_class : forall pub cn2 tn2 sels2 out2 pub2 fc kv,
       parse_type_def fuel' C S frs pub cn2 tn2 sels2 false [] (Some [tn2]) = Ok (out2, pub2, false) ->
-      sels_ok g cov C S true tn2 sels2 = true -> table_ok cs out2 ->
+      sels_ok g cov C S frs true tn2 sels2 = true -> table_ok cs out2 ->
       conf_obj_with (conf_val fc S frs) S tn2 (collect_scopes fc S frs tn2 [(false, sels2)]) kv = true ->
       Q (JObj kv) -> W (AClass cn2) (JObj kv) = true.
 
@@ -95,7 +96,7 @@ Section Level.
                     conf_val k S frs ft (sub_scopes [node_of_fnode false f]) v = true.
 
   Lemma field_value cn tn tv nested f pf ctx pub0 exc pub1 k v :
-    field_ok (sels_ok g cov C S true) S nested tn f = true -> tv_ok nested tn tv ->
+    field_ok (sels_ok g cov C S frs true) S nested tn f = true -> tv_ok nested tn tv ->
     field_pf C S frs fuel' cn tn tv f = Ok (pf, ctx) ->
     parse_subs (parse_type_def fuel' C S frs) S ctx f pub0 = Ok (exc, pub1, false) ->
     table_ok cs exc -> Q v -> value_conf tn f k v ->
@@ -184,7 +185,7 @@ Section Level.
 
   Lemma level_facts cn tn tv nested fns pub pfl extra pub' k kv :
     fields_run (parse_type_def fuel' C S frs) C S frs fuel' cn tn tv fns pub pfl extra pub' false ->
-    forallb (field_ok (sels_ok g cov C S true) S nested tn) fns = true ->
+    forallb (field_ok (sels_ok g cov C S frs true) S nested tn) fns = true ->
     keys_ok C (map field_key fns) = true -> tv_ok nested tn tv -> table_ok cs extra ->
     (forall p, In p kv -> In (fst p) (map field_key fns)) ->
     forallb (key_spec (conf_val k S frs) S tn kv) fns = true ->
@@ -285,16 +286,17 @@ End Level.
 (* ------------------------------------------------------------------------------------------- *)
 (* Main induction: acceptance                                                                    *)
 
-Lemma sels_ok_inv g cov C S nested tn sels :
-  sels_ok g cov C S nested tn sels = true ->
-  exists g', g = Datatypes.S g' /\ fields_only sels = true /\
-             keys_ok C (map field_key (fnodes_of sels)) = true /\
-             (cov = true -> NoDup (map (fun f => py_field_name C (field_key f)) (fnodes_of sels))) /\
-             forallb (field_ok (sels_ok g' cov C S true) S nested tn) (fnodes_of sels) = true.
+Lemma sels_ok_inv g cov C S frs nested tn sels :
+  sels_ok g cov C S frs nested tn sels = true ->
+  exists g' fns, g = Datatypes.S g' /\ flatten g' S frs tn tn sels = Some fns /\
+             keys_ok C (map field_key fns) = true /\
+             (cov = true -> NoDup (map (fun f => py_field_name C (field_key f)) fns)) /\
+             forallb (field_ok (sels_ok g' cov C S frs true) S nested tn) fns = true.
 Proof.
   destruct g as [|g']; [discriminate|]. simpl. intro H.
-  apply andb_true_iff in H as [H H4]. apply andb_true_iff in H as [H H3]. apply andb_true_iff in H as [H1 H2].
-  exists g'. repeat split; auto. intro Hc. subst cov. simpl in H3. apply nodupb_NoDup, H3.
+  destruct (flatten g' S frs tn tn sels) as [fns|] eqn:Ef; [| discriminate].
+  apply andb_true_iff in H as [H H3]. apply andb_true_iff in H as [H1 H2].
+  exists g', fns. repeat split; auto. intro Hc. subst cov. simpl in H2. apply nodupb_NoDup, H2.
 Qed.
 
 Lemma keys_ok_nodup C keys : keys_ok C keys = true -> NoDup keys.
@@ -303,49 +305,52 @@ Proof. unfold keys_ok. intro H. apply andb_true_iff in H as [H _]. apply nodupb_
 (* one level of the generator on a guarded selection set *)
 Lemma level_inv C S frs fuel pub cn tn sels tv out pub' g cov nested :
   parse_type_def (Datatypes.S fuel) C S frs pub cn tn sels false [] tv = Ok (out, pub', false) ->
-  sels_ok g cov C S nested tn sels = true ->
-  exists f2 g' pfl extra,
-    fuel = Datatypes.S f2 /\ g = Datatypes.S g' /\
-    fields_run (parse_type_def fuel C S frs) C S frs fuel cn tn tv (fnodes_of sels) (pub ++ [cn]) pfl extra pub' false /\
+  sels_ok g cov C S frs nested tn sels = true ->
+  exists f2 g' fns pfl extra,
+    fuel = Datatypes.S f2 /\ g = Datatypes.S g' /\ flatten g' S frs tn tn sels = Some fns /\
+    fields_run (parse_type_def fuel C S frs) C S frs fuel cn tn tv fns (pub ++ [cn]) pfl extra pub' false /\
     out = {| c_name := cn; c_bases := ["BaseModel"]; c_fields := pfl |} :: extra.
 Proof.
   intros H Hok. simpl in H. apply body_inv in H.
   destruct H as [[_ [_ [_ H]]] | [M [fields0 [mixins [pfl [extra [Hres [Hrun Hout]]]]]]]]; [discriminate|].
   destruct (resolve_ok_fuel _ _ _ _ _ _ Hres) as [f2 Ef]. subst fuel.
-  destruct (sels_ok_inv _ _ _ _ _ _ _ Hok) as [g' [Eg [Hfo _]]].
-  rewrite resolve_fields_only in Hres by exact Hfo. inversion Hres; subst fields0 mixins.
-  exists f2, g', pfl, extra. repeat split; auto.
+  destruct (sels_ok_inv _ _ _ _ _ _ _ _ Hok) as [g' [fns [Eg [Hfl _]]]].
+  pose proof (flatten_resolve_det _ _ _ _ _ _ _ _ _ Hfl Hres) as E. inversion E; subst fields0 mixins.
+  exists f2, g', fns, pfl, extra. repeat split; auto.
 Qed.
 
 Definition obj_conf (fc : nat) (S : schema) (frs : list fragdef) (tn : string) (sels : list sel)
            (kv : list (string * json)) : bool :=
   conf_obj_with (conf_val fc S frs) S tn (collect_scopes fc S frs tn [(false, sels)]) kv.
 
-Lemma obj_conf_inv fc S frs tn sels kv C :
-  obj_conf fc S frs tn sels kv = true -> fields_only sels = true ->
-  keys_ok C (map field_key (fnodes_of sels)) = true ->
-  (forall p, In p kv -> In (fst p) (map field_key (fnodes_of sels))) /\
-  forallb (key_spec (conf_val fc S frs) S tn kv) (fnodes_of sels) = true.
+Lemma obj_conf_inv fc S frs tn sels kv C g fns :
+  obj_conf fc S frs tn sels kv = true -> flatten g S frs tn tn sels = Some fns ->
+  keys_ok C (map field_key fns) = true ->
+  (forall p, In p kv -> In (fst p) (map field_key fns)) /\
+  forallb (key_spec (conf_val fc S frs) S tn kv) fns = true.
 Proof.
-  unfold obj_conf, conf_obj_with. intros H Hfo Hk. destruct fc as [|k]; [discriminate H|].
-  rewrite conf_obj_fields_only in H; [| exact Hfo | eapply keys_ok_nodup; eauto].
+  unfold obj_conf, conf_obj_with. intros H Hfl Hk.
+  destruct (collect_scopes fc S frs tn [(false, sels)]) as [l|] eqn:E; [| discriminate H].
+  rewrite (collect_scopes_flat _ _ _ _ _ _ _ _ Hfl E) in H.
+  rewrite conf_obj_flat in H by (eapply keys_ok_nodup; eauto).
   simpl in H. apply andb_true_iff in H as [H1 H2]. split; [| exact H2].
   intros p Hp. rewrite forallb_forall in H1. apply mem_In, H1, Hp.
 Qed.
 
 Theorem obj_accepts C S frs : forall fuel g cov nested pub cn tn sels tv out pub' cs fc kv n,
   parse_type_def fuel C S frs pub cn tn sels false [] tv = Ok (out, pub', false) ->
-  sels_ok g cov C S nested tn sels = true -> tv_ok nested tn tv -> table_ok cs out ->
+  sels_ok g cov C S frs nested tn sels = true -> tv_ok nested tn tv -> table_ok cs out ->
   obj_conf fc S frs tn sels kv = true ->
   n >= fuel + 1 ->
   accepts n cs (schema_enums S) (AClass cn) (JObj kv) = true.
 Proof.
   induction fuel as [|fuel IH]; intros g cov nested pub cn tn sels tv out pub' cs fc kv n Hp Hok Htv Htab Hc Hn;
     [discriminate Hp|].
-  destruct (level_inv _ _ _ _ _ _ _ _ _ _ _ _ _ _ Hp Hok) as [f2 [g' [pfl [extra [Ef [Eg [Hrun Hout]]]]]]].
-  destruct (sels_ok_inv _ _ _ _ _ _ _ Hok) as [g'' [Eg' [Hfo [Hkeys [_ Hfields]]]]].
+  destruct (level_inv _ _ _ _ _ _ _ _ _ _ _ _ _ _ Hp Hok) as [f2 [g' [fns [pfl [extra [Ef [Eg [Hfl [Hrun Hout]]]]]]]]].
+  destruct (sels_ok_inv _ _ _ _ _ _ _ _ Hok) as [g'' [fns' [Eg' [Hfl' [Hkeys [_ Hfields]]]]]].
   rewrite Eg in Eg'. inversion Eg'; subst g''. clear Eg'.
-  destruct (obj_conf_inv _ _ _ _ _ _ C Hc Hfo Hkeys) as [Hkv Hspec].
+  rewrite Hfl in Hfl'. inversion Hfl'; subst fns'. clear Hfl'.
+  destruct (obj_conf_inv _ _ _ _ _ _ C _ _ Hc Hfl Hkeys) as [Hkv Hspec].
   destruct n as [|[|[|n2]]]; try lia.
   set (n1 := Datatypes.S n2). set (n' := Datatypes.S n1).
   assert (Hc0 : In {| c_name := cn; c_bases := ["BaseModel"]; c_fields := pfl |} out)
@@ -386,17 +391,18 @@ Qed.
 
 Theorem obj_covers C S frs : forall fuel g nested pub cn tn sels tv out pub' cs fc kv n,
   parse_type_def fuel C S frs pub cn tn sels false [] tv = Ok (out, pub', false) ->
-  sels_ok g true C S nested tn sels = true -> tv_ok nested tn tv -> table_ok cs out ->
+  sels_ok g true C S frs nested tn sels = true -> tv_ok nested tn tv -> table_ok cs out ->
   obj_conf fc S frs tn sels kv = true -> jwf (JObj kv) = true ->
   n >= fuel + 1 ->
   covers n cs (AClass cn) (JObj kv) = true.
 Proof.
   induction fuel as [|fuel IH]; intros g nested pub cn tn sels tv out pub' cs fc kv n Hp Hok Htv Htab Hc Hwf Hn;
     [discriminate Hp|].
-  destruct (level_inv _ _ _ _ _ _ _ _ _ _ _ _ _ _ Hp Hok) as [f2 [g' [pfl [extra [Ef [Eg [Hrun Hout]]]]]]].
-  destruct (sels_ok_inv _ _ _ _ _ _ _ Hok) as [g'' [Eg' [Hfo [Hkeys [Hnames Hfields]]]]].
+  destruct (level_inv _ _ _ _ _ _ _ _ _ _ _ _ _ _ Hp Hok) as [f2 [g' [fns [pfl [extra [Ef [Eg [Hfl [Hrun Hout]]]]]]]]].
+  destruct (sels_ok_inv _ _ _ _ _ _ _ _ Hok) as [g'' [fns' [Eg' [Hfl' [Hkeys [Hnames Hfields]]]]]].
   rewrite Eg in Eg'. inversion Eg'; subst g''. clear Eg'.
-  destruct (obj_conf_inv _ _ _ _ _ _ C Hc Hfo Hkeys) as [Hkv Hspec].
+  rewrite Hfl in Hfl'. inversion Hfl'; subst fns'. clear Hfl'.
+  destruct (obj_conf_inv _ _ _ _ _ _ C _ _ Hc Hfl Hkeys) as [Hkv Hspec].
   destruct n as [|[|[|n2]]]; try lia.
   set (n1 := Datatypes.S n2). set (n' := Datatypes.S n1).
   assert (Hc0 : In {| c_name := cn; c_bases := ["BaseModel"]; c_fields := pfl |} out)
@@ -424,8 +430,9 @@ Qed.
 
 (* the guard on the input of an operation: the root is an object type, the selection set is in the
    sub-language; [cov] adds pairwise distinct Python field names *)
-Definition op_ok (g : nat) (cov : bool) (C : cfg) (S : schema) (root : string) (sels : list sel) : bool :=
-  is_object S root && sels_ok g cov C S false root sels.
+Definition op_ok (g : nat) (cov : bool) (C : cfg) (S : schema) (frs : list fragdef) (root : string)
+           (sels : list sel) : bool :=
+  is_object S root && sels_ok g cov C S frs false root sels.
 
 Lemma conf_op_obj fc S frs root sels j :
   is_object S root = true -> conf_op fc S frs root sels j = true ->
@@ -477,7 +484,7 @@ Theorem op_accepts C S frs fuel kind name sels root own pub' cls g cov fc j n :
   root_type_name S kind = Ok root ->
   op_parse fuel C S frs kind name [] sels = Ok (own, pub', false) ->
   all_classes fuel C S frs (DOp kind name [] sels) = Ok cls ->
-  op_ok g cov C S root sels = true -> no_basemodel own = true ->
+  op_ok g cov C S frs root sels = true -> no_basemodel own = true ->
   conf_op fc S frs root sels j = true ->
   n >= fuel + 1 ->
   accepts n cls (schema_enums S) (AClass (pascal_s name)) j = true.
@@ -494,7 +501,7 @@ Theorem op_covers C S frs fuel kind name sels root own pub' cls g fc j n :
   root_type_name S kind = Ok root ->
   op_parse fuel C S frs kind name [] sels = Ok (own, pub', false) ->
   all_classes fuel C S frs (DOp kind name [] sels) = Ok cls ->
-  op_ok g true C S root sels = true -> no_basemodel own = true ->
+  op_ok g true C S frs root sels = true -> no_basemodel own = true ->
   conf_op fc S frs root sels j = true -> jwf j = true ->
   n >= fuel + 1 ->
   covers n cls (AClass (pascal_s name)) j = true.
